@@ -34,6 +34,10 @@ UNIV = gen.make_universe((), 0, tuple(INPUTS + OUT_POOL))
 CFG = gen.cfg_with(universe=UNIV, caches=['cache.gz', 'cache.gz', 'cd/cache.gz'])
 
 
+def cfg(tier):
+    return dict(CFG, line_budget=30 if tier == 'quick' else 120, sched_budget=40 if tier == 'quick' else 80)
+
+
 @st.composite
 def par_program(draw, cfg, cache):
     ntasks = draw(st.sampled_from([2, 2, 2, 3]))
@@ -103,8 +107,8 @@ def program_strategy(cfg, cache):
     return par_program(cfg, cache)
 
 
-def sched_step(vers, spec):
-    return ['build', vers, None, None, {'sched': spec}]
+def sched_step(vers, spec, fail_at=None):
+    return ['build', vers, fail_at, None, {'sched': spec}]
 
 
 def shares_new_dir(h):
@@ -137,13 +141,18 @@ def drive(draw, h, cfg):
         if shape == 'stale':
             step(h, [draw(st.sampled_from(['write', 'rm'])), draw(st.sampled_from(INPUTS[2:])), 1][:3])
         else:
-            tgt = draw(st.sampled_from(INPUTS[:2] + OUT_POOL))
-            step(h, draw(st.sampled_from([['touch', tgt], ['write', tgt, 1], ['rm', tgt], ['write', 'o/d/foreign', 0]])))
+            for _ in range(draw(st.integers(1, 4))):
+                tgt = draw(st.sampled_from(INPUTS[:2] + OUT_POOL))
+                step(h, draw(st.sampled_from([['touch', tgt], ['write', tgt, 1], ['write', tgt, 1], ['rm', tgt], ['write', 'o/d/foreign', 0]])))
+            if draw(st.booleans()):
+                vers = {'f0': 1, 'f1': 1, 'f2': 1, 'f3': 1}          # new versions: several outputs are rebuilt (moved aside) concurrently
     if h.dead:
         return
     # ---- the explored parallel build: count the decision points of the default schedule first
+    # (in a third of the scenarios the root function raises after the parallel part: rollback after concurrent work)
+    fail_at = 0 if draw(st.sampled_from(range(3))) == 0 else None
     h.apply(['save'])
-    step(h, sched_step(vers, {'preempt': []}))
+    step(h, sched_step(vers, {'preempt': []}, fail_at))
     if h.dead:
         return
     runs = h.rctx.extra.get('sched_runs') or [{'decisions': 0}]
@@ -167,11 +176,27 @@ def drive(draw, h, cfg):
     for _ in range(6):
         specs.append({'mode': 'random', 'seed': draw(st.integers(0, 10 ** 6)), 'p': draw(st.sampled_from([0.05, 0.15, 0.4])),
                       'first': draw(st.integers(0, 2))})
+    # ---- line granularity: every executed line of library code is a decision point (sampled positions)
+    h.apply(['restore'])
+    step(h, sched_step(vers, {'preempt': [], 'lines': True}, fail_at))
+    if h.dead:
+        return
+    NL = ((h.rctx.extra.get('sched_runs') or [{'decisions': 0}])[0])['decisions']
+    h.stats['c09_line_decision_points'] += NL
+    lb = cfg.get('line_budget', 30)
+    if NL > 0:
+        for i in sorted(draw(st.lists(st.integers(1, NL), min_size=min(lb, NL), max_size=min(lb, NL), unique=True))):
+            specs.append({'preempt': [[i, 0]], 'lines': True})
+        for _ in range(lb // 3):
+            i = draw(st.integers(1, NL))
+            specs.append({'preempt': [[i, 0], [i + draw(st.integers(1, 60)), 0]], 'lines': True})
     for spec in specs:
         if h.dead:
             return
         h.apply(['restore'])
-        step(h, sched_step(vers, spec))
+        step(h, sched_step(vers, spec, fail_at))
+        if spec.get('lines'):
+            h.stats['c09_line_level_runs'] += 1
         h.stats['c09_schedule_runs'] += 1
         sr = (h.rctx.extra.get('sched_runs') or [{}])[0]
         if sr.get('switches', 0) > 0:
@@ -205,7 +230,7 @@ def nontrivial(h):
 
 
 def plan(tier, seed):
-    return histprop.plan_shards(tier, seed, 640, 16000)
+    return histprop.plan_shards(tier, seed, 320, 12000)
 
 
 def run_shard(shard):
